@@ -303,6 +303,10 @@ class Path:
     def points(self):
         return [p for _, pts in self._segs for p in pts]
 
+    def __len__(self):
+        # real pathops: number of contours; an empty path is falsy
+        return sum(1 for v, _ in self._segs if v == PathVerb.MOVE)
+
     @property
     def firstPoints(self):
         return [pts[0] for v, pts in self._segs if v == PathVerb.MOVE]
